@@ -20,7 +20,7 @@ import collections, concurrent.futures, functools, itertools, os, re, subprocess
 from vlib import paths
 from vlib.proto import hexs, unhex
 
-LEAN_TARGETS = ["LyModel.Props.C18"]
+LEAN_TARGETS = ["LyModel.Props.C18", "LyModel.Props.C18Parse", "LyModel.Props.C18Sem"]
 AUDIT = "Audit/C18.lean"
 GENERATED = ["UBlocks", "XsdUcd"]
 ASSUMPTIONS = [
@@ -172,12 +172,13 @@ def grid_size(k, maxlen):
 
 class Case:
     """one pattern against one set of strings: ('grid', alphabet_bytes, maxlen) or ('list', [bytes...])"""
-    __slots__ = ("pat", "kind", "alpha", "maxlen", "strs", "s3", "s4", "salt", "xpfail", "tag")
+    __slots__ = ("pat", "kind", "alpha", "maxlen", "strs", "s3", "s4", "salt", "xpfail", "tag", "frag")
 
     def __init__(self, pat, kind, alpha=b"", maxlen=0, strs=(), s3=1, s4=0, salt=0, xpfail=0, tag="grid"):
         self.pat = pat if isinstance(pat, bytes) else pat.encode()
         self.kind, self.alpha, self.maxlen, self.strs = kind, alpha, maxlen, list(strs)
         self.s3, self.s4, self.salt, self.xpfail, self.tag = s3, s4, salt, xpfail, tag
+        self.frag = 0       # 1: the model says the pattern is in the fragment of rewrite_preserves_language (no finding may excuse a failure)
 
     def n(self):
         return grid_size(len(self.alpha.decode()), self.maxlen) if self.kind == "grid" else len(self.strs)
@@ -270,6 +271,9 @@ class State:
         self.flags = []         # text repairs the tree already has (probed)
         self.nl = 0             # 1 when `.` already excludes CR (probed)
         self.blocks = []        # names of ublock2urange
+        self.negb = 0           # 1 when the tree rewrites \P{IsX} outside a class to [^\p{IsX}] first (probed; fixes/F185.diff)
+        self.sub = 0            # 1 when the tree translates class subtraction (probed; fixes/F181.diff)
+        self.mce = ""           # XSD multi-character escape letters the tree translates in pass 1 (probed; fixes/F182.diff, F183.diff)
 
 
 def flagstr(fl):
@@ -404,9 +408,20 @@ def attribute(cx, st, failing, stats):
         spec = det.get("spec")
         case = dict(c.payload(), **{k: v for k, v in det.items() if k not in ("spec", "impl")})
         case["features"] = sorted(fs)
+        if c.frag:
+            # the semantic theorem covers this pattern: whatever the features, a failure is a violation
+            stats["fragment-failure"] += 1
+            cx.fail(COMP, what + " although the pattern is in the fragment of rewrite_preserves_language", case)
+            continue
         # 1. the oracle itself: PCRE2 on the semantics-first translation must give the spec verdicts
         o = ri.get("o%d" % i, ["err", "NoReply"])
         m = spec
+        if big_quantifier(c.pat) and what == "XSD-valid pattern is rejected" and o[0] != "ok":
+            # PCRE2 cannot serve as the cross-check either: the number is above ITS limit (F451)
+            stats["attributed-F451"] += 1
+            cx.count((c.tag, c.pat, "F451"), True, "xsdre:%s:known-F451" % c.tag, c.n())
+            cx.fail(COMP, what + " [F451]", dict(case, attributed="F451"))
+            continue
         if o[0] != "ok" or o[1] != m:
             stats["oracle-crosscheck-failed"] += 1
             cx.fail(COMP, "oracle cross-check failed: PCRE2 on toPcre(pattern) disagrees with the spec matcher",
@@ -415,13 +430,17 @@ def attribute(cx, st, failing, stats):
         stats["oracle-crosscheck-ok"] += 1
         # 2. findings without a repair switch, by feature of the parsed pattern
         fid = None
-        if "subtraction" in fs:
+        if escaped_backslash_needle(c.pat):
+            fid = "F450"
+        elif big_quantifier(c.pat) and what == "XSD-valid pattern is rejected":
+            fid = "F451"
+        elif "subtraction" in fs and not st.sub:
             fid = "F181"
-        elif fs & {"i", "I", "c", "C"}:
+        elif (fs & {"i", "I", "c", "C"}) - set(st.mce):
             fid = "F182"
-        elif fs & {"w", "W", "s", "S"}:
+        elif (fs & {"w", "W", "s", "S"}) - set(st.mce):
             fid = "F183"
-        elif "Pblock" in fs or any(("\\p{Is%s}" % b).encode() in c.pat for b in NONTABLE_BLOCKS):
+        elif (("in-class:Pblock" in fs) if st.negb else ("Pblock" in fs)) or any(("\\p{Is%s}" % b).encode() in c.pat for b in NONTABLE_BLOCKS):
             fid = "F185"
         if fid:
             stats["attributed-" + fid] += 1
@@ -453,6 +472,27 @@ def attribute(cx, st, failing, stats):
             stats["attributed-" + fid] += 1
             cx.fail(COMP, what + " [%s]" % fid, dict(case, attributed=fid, repairs="+".join(fids)))
         cx.count((c.tag, c.pat, tuple(fids)), True, "xsdre:%s:known-%s" % (c.tag, "+".join(fids)), c.n())
+
+
+def escaped_backslash_needle(pat):
+    """the text `p{Is` directly behind an ESCAPED backslash (token `\\\\`): pass 2 takes it for a block escape (F450)"""
+    i, n = 0, len(pat)
+    while i < n:
+        if pat[i:i + 1] == b"\\":
+            if pat[i + 1:i + 2] == b"\\" and pat[i + 2:i + 6] == b"p{Is":
+                return True
+            i += 2
+        else:
+            i += 1
+    return False
+
+
+def big_quantifier(pat):
+    """a `{n}` / `{n,}` / `{n,m}` with a number above the PCRE2 limit 65535 (F451)"""
+    for m in re.finditer(rb"\{(\d+)(?:,(\d*))?\}", pat):
+        if int(m.group(1)) > 65535 or (m.group(2) and int(m.group(2)) > 65535):
+            return True
+    return False
 
 
 NONTABLE_BLOCKS = ["HighSurrogates", "HighPrivateUseSurrogates", "LowSurrogates", "OldItalic", "Gothic", "Deseret", "ByzantineMusicalSymbols",
@@ -507,10 +547,31 @@ def probe(cx):
         if lfr is not None and lfr != ("f187" in st.flags):
             cx.fail(COMP, "translator and harness disagree on the length the block substitution copies from a row",
                     {"Generated.UBlocks.lenFromRow": lfr, "rewrite_of_IsSpecials": (t5 or b"?").decode("utf-8", "replace")})
+    r6 = cx.run_impl(HARNESS, ["m%s %s rewrite - %s" % (ch, COMP, hexs(("\\" + ch).encode())) for ch in "icICwWsS"], component=COMP)
+    for ch in "icICwWsS":
+        r = r6.get("m" + ch, ["err"])
+        if r[0] == "ok" and unhex(r[1]).startswith(b"[") and unhex(r[1]).endswith(b"]"):
+            st.mce += ch
+    r7 = cx.run_impl(HARNESS, ["sb %s rewrite - %s" % (COMP, hexs(b"[a-[b]]"))], component=COMP).get("sb", ["err"])
+    st.sub = 1 if (r7[0] == "ok" and unhex(r7[1]) == b"(?:[a](?<![b]))") else 0
+    gs = cx.run_model(["gs %s subtraction" % COMP]).get("gs", ["err"])
+    if gs[:2] != ["ok", str(st.sub)]:
+        cx.fail(COMP, "translator and harness disagree on whether pass 1 translates class subtraction",
+                {"Generated.UBlocks.subtraction": gs, "harness_rewrite_of_[a-[b]]": (unhex(r7[1]).decode("utf-8", "replace") if r7[0] == "ok" else r7)})
+    r8 = cx.run_impl(HARNESS, ["nb %s rewrite - %s" % (COMP, hexs(b"\\P{IsGreek}"))], component=COMP).get("nb", ["err"])
+    st.negb = 1 if (r8[0] == "ok" and unhex(r8[1]).startswith(b"[^")) else 0
+    gn = cx.run_model(["gn %s negblocks" % COMP]).get("gn", ["err"])
+    if gn[:2] != ["ok", str(st.negb)]:
+        cx.fail(COMP, "translator and harness disagree on whether negated block escapes are rewritten before pass 1",
+                {"Generated.UBlocks.negBlocks": gn, "harness_rewrite_of_\\P{IsGreek}": r8[:2]})
+    gm = cx.run_model(["gm %s mce" % COMP]).get("gm", ["err"])
+    if gm[0] != "ok" or sorted(gm[1] if gm[1] != "-" else "") != sorted(st.mce):
+        cx.fail(COMP, "translator and harness disagree on the multi-character escapes pass 1 translates",
+                {"Generated.UBlocks.mceTable": gm, "harness": st.mce})
     info = ri.get("p0", ["err"])
     st.nl = 1 if (info[0] == "ok" and info[2] != "2") else 0
-    cx.notes.append("tree state probed through the harness: repairs present = %s, newline convention %s, PCRE2 %s"
-                    % (flagstr(st.flags) + ("+nl" if st.nl else ""), info[2] if info[0] == "ok" else "?", info[3] if info[0] == "ok" else "?"))
+    cx.notes.append("tree state probed through the harness: repairs present = %s, multi-character escapes translated = %s, class subtraction translated = %s, newline convention %s, PCRE2 %s"
+                    % (flagstr(st.flags) + ("+nl" if st.nl else ""), st.mce or "-", ("yes" if st.sub else "no") + (", \\P{IsX} outside classes rewritten" if st.negb else ""), info[2] if info[0] == "ok" else "?", info[3] if info[0] == "ok" else "?"))
     return st
 
 
@@ -523,10 +584,39 @@ def rewrite_inputs(cx, st):
     for n in range(0, cx.n(5, 6) + 1):
         for t in itertools.product(B, repeat=n):
             out.append(b"".join(t))
+    # multi-character escapes (F182 / F183: replaced in pass 1 when the source has the table): every byte string of length <= 5
+    # over {\ [ ] i w $}
+    for n in range(1, 6):
+        for t in itertools.product([b"\\", b"[", b"]", b"i", b"w", b"$"], repeat=n):
+            out.append(b"".join(t))
+    # class subtraction (F181: `-[` inside a class): every byte string of length <= 6 over {\ [ ] - a}, and nestings / garbage
+    for n in range(1, 7):
+        for t in itertools.product([b"\\", b"[", b"]", b"-", b"a"], repeat=n):
+            out.append(b"".join(t))
+    SUBP = [b"[a-[b]]", b"[^a-z-[aeiou]]", b"[a-[b-[c]]]", b"[a-[b-[c-[d]]]]", b"-[", b"]]", b"[a-", b"[\\w-[\\d]]", b"+", b"{2}", b"x", b"\\-[", b"[\\]-[a]]", b"[a-[\\]]]",
+            b"(", b")", b"|", b"^", b"$", b"[a", b"-", b"\\p{IsGreek}", b"[\\p{IsGreek}-[\\p{IsBasicLatin}]]"]
+    for a in SUBP:
+        for b in SUBP:
+            out.append(a + b)
+    for _ in range(cx.n(1500, 8000)):
+        out.append(b"".join(rng.choice(SUBP) for _ in range(rng.randrange(2, 6))))
+    # negated block escapes (F185: `\P{IsX}` at depth 0 is rewritten to `[^\p{IsX}]` first when the source has the pass)
+    NEGP = [b"\\P{IsGreek}", b"\\P{IsSpecials}", b"\\P{IsFoo}", b"\\P{Is", b"\\P{IsGreek", b"\\P{L}", b"\\\\P{IsGreek}", b"[", b"]", b"\\[", b"\\]", b"}", b"{", b"\\", b"a", b"\\p{IsGreek}",
+            b"[a", b"^", b"+", b"[^\\P{IsGreek}]", b"\\}", b"P{IsGreek}"]
+    for a in NEGP:
+        out.append(a)
+        for b in NEGP:
+            out.append(a + b)
+            out.append(a + b + b"\\P{IsBasicLatin}")
+    for _ in range(cx.n(1500, 8000)):
+        out.append(b"".join(rng.choice(NEGP) for _ in range(rng.randrange(2, 6))))
+    out.append(b"[" * 70 + b"a-[b" + b"]" * 72)
+    out.append(b"[a" + b"-[a" * 70 + b"]" * 71)
     names = st.blocks or ["BasicLatin", "Greek", "GreekExtended", "Specials"]
     pick = ["BasicLatin", "Latin-1Supplement", "Greek", "GreekExtended", "Cyrillic", "CJKCompatibility", "CJKCompatibilityForms", "Specials", names[-2], names[len(names) // 2]]
     P = [("\\p{Is%s}" % n).encode() for n in pick]
     P += [b"\\P{IsGreek}", b"\\p{IsFoo}", b"\\p{Is}", b"\\p{IsGreek", b"\\p{Is", b"\\p{L}", b"\\p{IsGreekX}", b"\\p{IsBasicLatin }",
+          b"\\i", b"\\c", b"\\I", b"\\C", b"\\w", b"\\W", b"\\s", b"\\S", b"\\d", b"i", b"w",
           b"[", b"]", b"\\[", b"\\]", b"\\\\", b"\\", b"^", b"$", b"\\^", b"\\$", b"a", b"-", b"[^", b"}", b"{", b"p{IsGreek}", b"|", b"(", b")", b"*", b"."]
     for a in P:
         out.append(a)
@@ -772,6 +862,128 @@ def escape_block_cases(cx, st):
     return cases
 
 
+# ------------------------------------------------------------------------------------------ every construct of the printer
+
+R_PLAIN = ["a", "b", "c", "x", "1", "-", " ", "_", ":", "^", "$", "\u03b1", "\u00e9", "\u4e2d", "A", "Z", "=", "~", "p", "I", "s"]
+R_ESCLIT = ["\\.", "\\\\", "\\|", "\\?", "\\*", "\\+", "\\(", "\\)", "\\{", "\\}", "\\[", "\\]", "\\-", "\\^", "\\$", "\\n", "\\r", "\\t"]
+R_MULTI = ["\\d", "\\D", "\\w", "\\W", "\\s", "\\S", "\\i", "\\I", "\\c", "\\C"]
+R_PROP = ["\\p{Lu}", "\\p{L}", "\\P{L}", "\\p{Nd}", "\\P{Nd}", "\\p{Zs}", "\\p{P}", "\\P{Lu}", "\\p{Sc}", "\\p{IsGreek}", "\\P{IsGreek}", "\\p{IsBasicLatin}",
+          "\\p{IsCyrillic}", "\\P{IsBasicLatin}", "\\p{IsLatin-1Supplement}"]
+R_QUANT = ["*", "+", "?", "{2}", "{0}", "{1,}", "{0,}", "{2,}", "{0,1}", "{0,2}", "{1,3}", "{2,2}", "{1,1}"]
+R_CLSCH = ["a", "b", "c", "x", "1", " ", "|", ".", "?", "*", "+", "(", ")", "}", "$", "\u03b1", "\u03c9", "\u00e9", "A", "{", "p", "I", "s"]
+R_CLSESC = ["\\\\", "\\[", "\\]", "\\-", "\\^", "\\n", "\\r", "\\t"]
+R_RANGE = ["a-c", "a-z", "0-9", "A-Z", "\u03b1-\u03c9", "b-b", "\\--1", "\\t-\\r", " -~", "a-\\]"]
+
+
+def gen_class(rng, depth):
+    items = []
+    for _ in range(rng.randrange(1, 4)):
+        k = rng.random()
+        if k < 0.35: items.append(rng.choice(R_CLSCH))
+        elif k < 0.5: items.append(rng.choice(R_CLSESC))
+        elif k < 0.7: items.append(rng.choice(R_RANGE))
+        elif k < 0.85: items.append(rng.choice(R_MULTI))
+        else: items.append(rng.choice(R_PROP))
+    body = ("^" if rng.random() < 0.3 else "") + "".join(items)
+    if rng.random() < 0.08: body = "-" + body.lstrip("^") if not body.startswith("^") else body
+    if rng.random() < 0.08 and not body.endswith("-"): body += "-"
+    if depth > 0 and rng.random() < 0.2:
+        body += "-" + gen_class(rng, depth - 1)
+    return "[" + body + "]"
+
+
+def gen_atom(rng, depth):
+    k = rng.random()
+    if k < 0.28: return rng.choice(R_PLAIN)
+    if k < 0.42: return rng.choice(R_ESCLIT)
+    if k < 0.47: return "."
+    if k < 0.58: return rng.choice(R_MULTI)
+    if k < 0.68: return rng.choice(R_PROP)
+    if k < 0.86 or depth <= 0: return gen_class(rng, 2)
+    return "(" + gen_re(rng, depth - 1) + ")"
+
+
+def gen_re(rng, depth):
+    brs = []
+    for _ in range(rng.choice([1, 1, 1, 2, 2, 3])):
+        b = ""
+        for _ in range(rng.choice([0, 1, 1, 2, 2, 3, 4])):
+            b += gen_atom(rng, depth) + (rng.choice(R_QUANT) if rng.random() < 0.35 else "")
+        brs.append(b)
+    return "|".join(brs)
+
+
+def render_cases(cx, st):
+    """Patterns of a grammar in which every construct of the printer `renderXsd` occurs (and other spellings of the same trees);
+    the model parses, prints canonically, parses again (`parse_render_roundtrip` evaluated), and says whether the tree is in
+    the fragment of `rewrite_preserves_language`; original and canonical text go through the four routes."""
+    rng = cx.sub_rng("render")
+    pats = ["a{0,65535}", "[a-c-[b]]", "[^a-[b-[c]]]", "(|a)", "a||b", "()", "[\\{]", "[{]", "\\{Is", "\\\\p\\{Is", "^$", "[$^]", "[a^]", "[\\^a]", "[-a]", "[a-]", "a{3}{2}" ]
+    seen = set(pats)
+    for _ in range(cx.n(220, 2500)):
+        p = gen_re(rng, 2)
+        if p not in seen and "\x00" not in p:
+            seen.add(p); pats.append(p)
+    lines = ["c%d %s canon %s" % (i, COMP, hexs(p.encode())) for i, p in enumerate(pats)]
+    rm = par_model(cx, lines)
+    dist = collections.Counter()
+    alpha = ["a", "b", "c", "x", "z", "1", "9", "-", " ", "_", ":", "^", "$", ".", "|", "\\", "{", "}", "[", "]", "(", ")", "?", "*", "+", "\u03b1", "\u03c9", "\u00e9", "\u4e2d", "A", "Z",
+             "\n", "\r", "\t", "=", "~", "\u00a0", "\u0663", "\u0300", "p", "I", "s"]
+    cases, texts, nfrag, nrej = [], [], 0, 0
+    for i, p in enumerate(pats):
+        r = rm.get("c%d" % i, ["err", "NoReply"])
+        if r[0] != "ok":
+            nrej += 1
+            cx.count(("render-reject", p), False, "xsdre:render:not-xsd")
+            continue
+        canon, back, iscanon, frag, sem, pcre = unhex(r[1]), r[2], r[3], r[4] == "1", r[5], unhex(r[6])
+        cons = r[7].split(";") if len(r) > 7 and r[7] else []
+        for k in cons:
+            dist[k] += 1
+        if back != "1" or iscanon != "1":
+            cx.fail(COMP, "parse_render_roundtrip / canon_of_parse evaluated on a pattern: the printed text is not read back to the same tree, or the tree is not canonical",
+                    {"pattern": p, "pattern_hex": hexs(p.encode()), "canonical": canon.decode("utf-8", "replace"), "roundtrip": back, "canon": iscanon})
+            continue
+        if frag and sem != "1" and set(TEXT_FLAGS) <= set(st.flags):
+            cx.fail(COMP, "rewrite_render evaluated on a pattern of the fragment: the model's rewrite of the canonical XSD text is not the canonical PCRE text",
+                    {"pattern": p, "pattern_hex": hexs(p.encode()), "canonical": canon.decode("utf-8", "replace")})
+            continue
+        nfrag += frag
+        chars = alpha[:]
+        strs = [""] + chars + ["".join(rng.choice(chars) for _ in range(rng.randrange(2, 5))) for _ in range(14)]
+        strs = [x.encode() for x in dict.fromkeys(strs)][:56]
+        for txt in dict.fromkeys([p.encode(), canon]):
+            c = Case(txt, "list", strs=strs, tag="render")
+            c.frag = 1 if frag else 0
+            cases.append(c)
+        if frag:
+            texts.append((canon, pcre))
+        cx.count(("render", p), True, "xsdre:render:%s" % ("fragment" if frag else "outside-fragment"))
+    # the text libyang hands to PCRE2 for the canonical text of a fragment pattern is the canonical PCRE text (rewrite_render on the code)
+    if set(TEXT_FLAGS) <= set(st.flags) and texts:
+        ri = par_impl(cx, ["t%d %s rewrite %s %s" % (i, COMP, flagstr(st.flags), hexs(c)) for i, (c, _) in enumerate(texts)])
+        for i, (c, pc) in enumerate(texts):
+            a = ri.get("t%d" % i, ["err", "NoReply"])
+            cx.count(("render-rewrite", c), True, "xsdre:render:rewrite-is-pcre-text")
+            if a[0] != "ok" or unhex(a[1]) != pc:
+                cx.fail(COMP, "the text handed to pcre2_compile for the canonical text of a fragment pattern is not its canonical PCRE text (rewrite_render)",
+                        {"pattern": c.decode("utf-8", "replace"), "pattern_hex": hexs(c), "impl": a[:2], "pcre_text": pc.decode("utf-8", "replace")})
+    cx.rule("render: %d generated patterns (%d not XSD) of a grammar over every construct of the printer, in several spellings; each parsed, printed canonically and "
+            "parsed again by the model (roundtrip must hold), %d in the fragment of rewrite_preserves_language (failures there are never excused by a finding; the text "
+            "handed to PCRE2 must be the canonical PCRE text); original and canonical text x <= 56 strings through the routes. Construct distribution (patterns containing it): %s"
+            % (len(pats), nrej, nfrag, ", ".join("%s=%d" % kv for kv in sorted(dist.items()))))
+    missing = [k for k in ALL_CONSTRUCTS if not dist.get(k)]
+    if missing:
+        cx.fail(COMP, "generator gap: constructs of the printer that no generated pattern contains", {"missing": missing})
+    return cases
+
+
+ALL_CONSTRUCTS = ["alt", "cat", "empty-branch", "group", "dot", "chr-plain", "chr-escaped", "chr-nrt", "chr-anchor", "chr-nonascii",
+                  "q*", "q+", "q?", "q{n}", "q{n,}", "q{n,m}", "cls-pos", "cls-neg", "cls-subtraction", "cls-range", "cls-chr-plain", "cls-chr-escaped", "cls-chr-nrt",
+                  "cls-chr-nonascii", "cls-chr-anchor"] + ["esc-" + x for x in "d D w W s S i I c C pcat Pcat pblock Pblock".split()] + \
+                 ["cls-esc-" + x for x in "d D w W s S i I c C pcat Pcat pblock Pblock".split()]
+
+
 # ------------------------------------------------------------------------------------------ other routes / resources
 
 def run_yangre_binary(cx, st):
@@ -871,11 +1083,14 @@ def run(cx):
            Case("\\i\\c*", "list", strs=[b"ab", b"1"], tag="witness"),
            Case("\\w", "list", strs=[b"$", b"a", b"_"], tag="witness"),
            Case("\\s", "list", strs=["\u00a0".encode(), b" "], tag="witness"),
-           Case("\\P{IsGreek}", "list", strs=[b"a", "\u03b1".encode()], tag="witness")]
+           Case("\\P{IsGreek}", "list", strs=[b"a", "\u03b1".encode()], tag="witness"),
+           Case("a{0,65536}", "list", strs=[b"a", b"aa"], tag="witness")]
     if "f1" in st.flags:
         wit += [Case("\\\\[a]\\p{IsGreek}", "list", strs=["\\a\u03b1".encode(), b"\\a", "\\a\u03b1]".encode()], tag="witness"),
                 Case("\\p{IsSpecials}", "list", strs=["\ufffd".encode(), "\ufeff".encode(), b"|", b"a"], tag="witness"),
-                Case("[a\\p{IsSpecials}]", "list", strs=["\ufff0".encode(), b"a", b"|"], tag="witness")]
+                Case("[a\\p{IsSpecials}]", "list", strs=["\ufff0".encode(), b"a", b"|"], tag="witness"),
+                Case("[\\\\p{IsBasicLatin}]", "list", strs=[b"p", b"x", b"a"], tag="witness"),
+                Case("[\\\\p{Is]", "list", strs=[b"p", b"{", b"a"], tag="witness")]
     tot = collections.Counter()
     tot.update(evaluate(cx, st, wit + corpus_cases(cx)))
     mark("witnesses+corpus")
@@ -890,6 +1105,8 @@ def run(cx):
     mark("unicode")
     tot.update(evaluate(cx, st, escape_block_cases(cx, st), inv_every=4))
     mark("escblock")
+    tot.update(evaluate(cx, st, render_cases(cx, st), inv_every=7))
+    mark("render")
     run_yangre_binary(cx, st)
     run_xpath_reject_leak(cx, st)
     mark("yangre+leak")
